@@ -346,3 +346,75 @@ func fnNames(fs []*ssa.Function) []string {
 	sort.Strings(out)
 	return out
 }
+
+// EmptyStr / NonEmptyStr: the path knows the string term is empty / non-empty
+// (through == "" or through len comparisons).
+func (p *Path) EmptyStr(t *Term) bool {
+	if s, ok := t.StrConst(); ok {
+		return s == ""
+	}
+	if p.Holds(atomEQ(t, tStr("")), true) {
+		return true
+	}
+	_, hi := p.IntBounds(call("len", t))
+	return hi != nil && *hi <= 0
+}
+
+func (p *Path) NonEmptyStr(t *Term) bool {
+	if s, ok := t.StrConst(); ok {
+		return s != ""
+	}
+	if p.Holds(atomEQ(t, tStr("")), false) {
+		return true
+	}
+	if p.Holds(atomEQ(call("len", t), tInt(0)), false) {
+		return true
+	}
+	lo, _ := p.IntBounds(call("len", t))
+	return lo != nil && *lo >= 1
+}
+
+func (p *Path) EmptyStrAt(e *Event, t *Term) bool {
+	if p.HoldsAt(e, atomEQ(t, tStr("")), true) {
+		return true
+	}
+	_, hi := p.IntBoundsAt(e, call("len", t))
+	return hi != nil && *hi <= 0
+}
+
+func (p *Path) NonEmptyStrAt(e *Event, t *Term) bool {
+	if p.HoldsAt(e, atomEQ(t, tStr("")), false) || p.HoldsAt(e, atomEQ(call("len", t), tInt(0)), false) {
+		return true
+	}
+	lo, _ := p.IntBoundsAt(e, call("len", t))
+	return lo != nil && *lo >= 1
+}
+
+// BoolCall looks for a boolean literal whose term is a call named name and
+// satisfies match (may be nil); returns its polarity.
+func (p *Path) BoolCall(name string, match func(*Term) bool) (val bool, known bool) {
+	return p.BoolCallAt(nil, name, match)
+}
+
+func (p *Path) BoolCallAt(e *Event, name string, match func(*Term) bool) (val bool, known bool) {
+	n := len(p.Facts)
+	if e != nil && e.NFacts < n {
+		n = e.NFacts
+	}
+	for _, f := range p.Facts[:n] {
+		if f.Atom.Kind == "B" && f.Atom.A.IsCall(name) && (match == nil || match(f.Atom.A)) {
+			return f.Pol, true
+		}
+	}
+	return false, false
+}
+
+// FactsMention reports whether some literal of the path mentions a term with key k.
+func (p *Path) FactsMention(k string) bool {
+	for _, f := range p.Facts {
+		if f.Atom.A.Contains(k) || (f.Atom.B != nil && f.Atom.B.Contains(k)) {
+			return true
+		}
+	}
+	return false
+}
